@@ -1,7 +1,7 @@
 """Registry entry, manifest texts for C02."""
 
 ENTRY = {'parts': [{'scenario': 'scenarios.s_pool', 'chunk': 6}],
-         'quick': {'runs': 2500, 'budget': 55}, 'thorough': {'runs': 150000, 'budget': 1200}}
+         'quick': {'runs': 2500, 'budget': 40}, 'thorough': {'runs': 150000, 'budget': 1200}}
 
 TEXT = {'level': 'Seeded search over inputs x chunkings x completion orders: map/starmap/imap/imap_unordered/apply '
           'on pools of 1-4 real workers whose chunk completion order is chosen by the scheduler; lengths '
